@@ -2,6 +2,7 @@ package props
 
 import (
 	"fmt"
+	"sort"
 	"strings"
 
 	z "github.com/Oudwins/zog"
@@ -170,6 +171,25 @@ func (c02) RunCase(c *core.Ctx) {
 		c.Eval(1)
 		if problem := dPreprocessStruct(); problem != "" {
 			c.Violation("issues-differ|Parse|preprocess-around-struct", map[string]any{"schema": "{order: Preprocess(fn -> Order{Qty, Paid, Note}, Struct{Qty: Int().GTE(1), Paid: Bool().True(), Note: String()}), ID: String()}", "observed": problem})
+			return
+		}
+	}
+	if c.Case%100 == 42 {
+		// a schema built statement by statement: every test declared on the object is run and reported
+		st := z.String()
+		st.Min(2)
+		st.Not().Email()
+		st.Not().Contains("@")
+		var d string
+		l := st.Parse("a@b.co", &d)
+		var codes []string
+		for _, e := range l {
+			codes = append(codes, e.Code)
+		}
+		sort.Strings(codes)
+		c.Eval(1)
+		if strings.Join(codes, ",") != "not_contained,not_email" {
+			c.Violation("issues-differ|Parse|schema-built-in-statements", map[string]any{"schema": "s := z.String(); s.Min(2); s.Not().Email(); s.Not().Contains(\"@\")", "input": "a@b.co", "codes": codes, "want": "not_contained, not_email"})
 			return
 		}
 	}
